@@ -40,7 +40,7 @@ META["C13"] = {
 
 META["C01"] = {
     "text": "Bounded symbolic model checking with an ORDER ORACLE: the real ConversionSupplySet.Payouts and the real SnapshotPayouts (SQL included) are executed twice from the same symbolic pre-state, once in canonical order and once with any permutation of a map iteration / any legal result of an unstable sort (solver-chosen), and the solver shows equal balances, payouts and history rows (address -> tx_index) for all balances including exact ties. Found D3 (staking tie order), repaired by fix 703a3f1.",
-    "note": "deviation budget: one permuted map range or unstable sort per run; 2 requests/2 stakers quick, 3 thorough; clock: time.Now() is a fresh symbolic value per call; the sync-loop scenarios (developer payout, mint, burn-address zeroings) are replayed by two independent daemons and their ledgers compared; multiFetch goroutines and grader-internal ties not encoded (not-applicable sub-claims, DESIGN §9)",
+    "note": "deviation budget: one permuted map range or unstable sort per run; 2 requests/2 stakers quick, 3 requests/2 stakers thorough; clock: time.Now() is a fresh symbolic value per call; the sync-loop scenarios (developer payout, mint, burn-address zeroings) are replayed by two independent daemons and their ledgers compared; multiFetch goroutines and grader-internal ties not encoded (not-applicable sub-claims, DESIGN §9)",
     "design_ref": "DESIGN.md §7 C01",
 }
 META["C14"] = {
